@@ -178,16 +178,14 @@ def run_path(h, cfg):
     while i < len(log):
         ent = log[i]
         if ent[0] != 'choice':
-            h.fail('proposal-uniform-over-items', {'log': show([list(e) for e in log])})
-            return out
+            raise symx.Inconclusive('selection does not follow the proposal/acceptance protocol the check can read (draw kinds: %s)' % [e[0] for e in log])
         if list(ent[1]) != items:
             h.fail('proposal-uniform-over-items', {'proposed_from': [str(x) for x in ent[1]], 'items': [str(x) for x in items]})
             return out
         h.require('proposal-uniform-over-items', True)
         cand = ent[1][ent[2]]
         if i + 1 >= len(log) or log[i + 1][0] != 'random':
-            h.fail('accept-threshold', {'log': show([list(e) for e in log])})
-            return out
+            raise symx.Inconclusive('selection does not follow the proposal/acceptance protocol the check can read (draw kinds: %s)' % [e[0] for e in log])
         u = log[i + 1][1]
         cmps = []
         j = i + 2
@@ -196,18 +194,23 @@ def run_path(h, cfg):
             j += 1
         iters.append((cand, u, cmps))
         i = j
-    for (cand, u, cmps) in iters:
+    for it_i, (cand, u, cmps) in enumerate(iters):
         w = weights[cand]
         thr = w / ld.max_weight
         h.require('accept-prob-in-[0,1]', AND(LE(0, thr), LE(thr, 1)), {'w': show(w), 'max': show(ld.max_weight)})
         if eng.mode == 'sym':
-            if len(cmps) != 1:
-                # comparison decided without the solver (constant) -- must still be the right one
-                h.require('accept-threshold', len(cmps) == 0 and False, {'cmps': len(cmps)})
+            # the acceptance region read off the code's own comparisons of u (any comparison linear in u) must be [0, w/max)
+            from vlib import laws
+            pv = laws.Prover(list(eng.pc))
+            try:
+                lo, hi, used = laws.uniform_interval(u, cmps, pv)
+            except laws.LawError as e:
+                raise symx.Inconclusive('acceptance test not linear in the uniform draw: %s' % e)
+            accepted = (it_i == len(iters) - 1)
+            if accepted:
+                h.require('accept-threshold', AND(lo == 0, hi == lift(thr)), {'interval': [str(lo), str(hi)], 'w/max': show(thr)})
             else:
-                diff, op, taken = cmps[0][1], cmps[0][2], cmps[0][3]
-                # the test performed must be   u < w/max   (diff = u - w/max, op lt)
-                h.require('accept-threshold', AND(op == 'lt', diff == (lift(u) - lift(thr))), {'diff': str(diff), 'op': op})
+                h.require('accept-threshold', AND(lo == lift(thr), hi == 1), {'interval': [str(lo), str(hi)], 'w/max': show(thr)})
     cand, u, cmps = iters[-1]
     if cand != chosen:
         h.fail('returns-accepted-candidate', {'chosen': str(chosen), 'last': str(cand)})
